@@ -17,6 +17,8 @@ CONSTANTS
   CtmItems2 = 1
   Waves = 2
   Chans = 2
+  CtmFineUnits <- CtmFineUnitsAll
+  CtmFineItems = 2
   TgFirst = {0, 9870}
   TgGaps = {0, 130, 8760}
   TgDurs = {0, 260, 1120}
@@ -41,6 +43,7 @@ INVARIANT TrnLexShape
 INVARIANT TrnFirstFlat
 INVARIANT CtmRoundTrip
 INVARIANT CtmLinesSorted
+INVARIANT CtmOrdinaryPlain
 INVARIANT TgNearest
 INVARIANT TgMonotone
 INVARIANT TgFillAgree
